@@ -5,7 +5,7 @@ list at distinct positions, the reported sum is the sum of the selected values, 
 least target + min-change; chooseUtxos moves exactly the selection from the unspent to the spent record; over
 deposit/withdrawal histories no outpoint is selected twice; the change output is never negative).
 Tie: correspondence stream `btcsel` (harness hbtc executes the real CoinSelector.Select / SimpleBnbSearch /
-SortedSearch, chooseUtxos and makeBtcTx on a real CacheDB through the `verif` wrappers; driver drv_btc executes the model
+SortedSearch, chooseUtxos, makeBtcTx and BTCHandler.MultiSign (real signatures) on a real CacheDB through the `verif` wrappers; driver drv_btc executes the model
 with IEEE doubles for the float tests).
 Search: the harness evaluates the property itself on every answer of the implementation (sum of the selected
 values vs reported sum, membership, target condition, record bookkeeping, no re-selection).
